@@ -3,7 +3,7 @@ import calendar
 import vlib
 from vlib import hx
 
-MODULES = ["Percival.Properties.C19"]
+MODULES = ["Percival.Properties.C19", "Percival.KAT.SigV4", "Percival.KAT.AwsSign"]
 SRCS = ["aws/aws_sign.c", "alg/sha256.c", "util/hexify.c", "util/asprintf.c", "util/warnp.c",
         "util/insecure_memzero.c"]
 
